@@ -236,6 +236,7 @@ func runC03(e *env) {
 	}
 	c03Handover(e)
 	runC03P(e, r)
+	runC03X(e) // extension streams (c03x.go): own PRNG stream, after everything else
 }
 
 // c03Handover replays, merge by merge, the witnesses of PC03.merge_diverges_on_token_handover (a token
